@@ -720,6 +720,51 @@ def _chunk(job):
     return p
 
 
+def part_matcher(p):
+    """The matcher with an explicit window argument (0 = identical time stamps only, 5 ms, the default 20 ms, 90 ms) on
+    time patterns whose gaps never equal the window: samples = maximal runs anchored at their first measurement."""
+    from cflib.localization.lighthouse_bs_vector import LighthouseBsVector
+    from cflib.localization.lighthouse_bs_vector import LighthouseBsVectors
+    from cflib.localization.lighthouse_sample_matcher import LighthouseSampleMatcher
+    from cflib.localization.lighthouse_types import LhMeasurement
+    vec = LighthouseBsVectors(LighthouseBsVector(0.01 * i, -0.02 * i) for i in range(4))
+    patterns = {
+        'same_stamp_per_pose_3ms_apart': [(1000 + 3000 * k, b) for k in range(6) for b in (0, 1)],
+        'stations_2ms_apart_poses_50ms_apart': [(50000 * k + 2000 * b, b) for k in range(5) for b in (0, 1, 2)],
+        'stations_7ms_apart_poses_200ms_apart': [(200000 * k + 7000 * b, b) for k in range(4) for b in (0, 1)],
+        'epoch_sized_stamps': [(1700000000000000 + 31000 * k + 1000 * b, b) for k in range(4) for b in (0, 1)],
+    }
+    for pname, events in patterns.items():
+        meas = [LhMeasurement(timestamp=ts / 1e6, base_station_id=b, angles=vec) for ts, b in events]
+        for window_us, arg in ((0, 0), (0, 0.0), (5000, 0.005), (20000, None), (20000, 0.02), (90000, 0.09)):
+            for min_bs in (0, 2):
+                groups = []
+                for ts, b in events:
+                    gap = (ts - groups[-1][0]) if groups else None
+                    if gap is not None and gap == window_us and window_us:
+                        raise RuntimeError('harness: pattern %s puts a stamp exactly on the %d us boundary' % (pname, window_us))
+                    if gap is not None and (gap < window_us or gap == window_us == 0):
+                        groups[-1][1].append(b)
+                    else:
+                        groups.append((ts, [b]))
+                want = [(t, sorted(set(bs))) for t, bs in groups if len(set(bs)) >= min_bs]
+                kw = {} if arg is None else {'max_time_diff': arg}
+                rp = {'part': 'matcher', 'pattern': pname, 'window': arg, 'min_bs': min_bs}
+                p.case(key=('matcher', pname, repr(arg), min_bs), outcome=('matcher', len(want)))
+                try:
+                    got = LighthouseSampleMatcher.match(meas, min_nr_of_bs_in_match=min_bs, **kw)
+                    got = [(round(s.timestamp * 1e6), sorted(s.angles_calibrated)) for s in got]
+                except Exception as e:  # noqa
+                    p.violation('match:raises:explicit_window', 'match(max_time_diff=%r, min_nr_of_bs_in_match=%d) on pattern %s '
+                                'raised %r' % (arg, min_bs, pname, e), rp)
+                    continue
+                if got != want:
+                    p.violation('match:grouping:explicit_window_%s' % ('zero' if window_us == 0 else 'default' if arg is None
+                                                                       else 'other'),
+                                'match(max_time_diff=%r, min_nr_of_bs_in_match=%d) on pattern %s: %d samples %r.., reference '
+                                'grouping %d %r..' % (arg, min_bs, pname, len(got), got[:3], len(want), want[:3]), rp)
+
+
 def run(ck):
     uniq = lattice(ck.quick)
     if not ck.quick:
@@ -762,6 +807,8 @@ def run(ck):
     # heavy rooms (40 poses) are spread evenly: round-robin assignment
     jobs = [(ci, tagged[ci::nchunks]) for ci in range(nchunks)]
     ck.pmap(_chunk, jobs)
+    if not ck.failing():
+        part_matcher(ck)
     ext = {}
     for name in list(ck.extra):
         if name.startswith('_'):
@@ -783,6 +830,11 @@ def run(ck):
 
 
 def replay(ck, data):
+    if data.get('part') == 'matcher':
+        part_matcher(ck)
+        for v in ck.violations:
+            print(' ', v['sig'], '::', v['what'])
+        return
     r = run_room(data, ck, verbose=True)
     if r is None:
         print('spec is not a room of the lattice (graph needs more poses, or outside the envelope):', data)
